@@ -64,6 +64,8 @@ def call(case, ctx, nopre=False):
         kw["weights"] = list(case["weights"])
     if case.get("constraint") is not None:
         kw["additional_constraints"] = constraint_fn(case["constraint"])
+    if case.get("time_limit") is not None:
+        kw["time_limit"] = float("inf") if case["time_limit"] == "inf" else case["time_limit"]      # generous limits: the solver needs milliseconds here
     ipm = mod("prtpy.partitioning.integer_programming")
     Orig = ipm.mip.Model
     if nopre:
@@ -198,6 +200,8 @@ def draw(rng):
     case = {"kind": "ilp", "alg": "ilp", "k": k, "values": vals, "objective": [name, kp], "pres": rng.choice(["list", "dict_str", "names_int"]), "pres_seed": rng.randrange(1 << 30)}
     cls = rng.choice(["plain", "copies", "copies", "constraint", "constraint", "constraint", "weights_uniform", "weights", "copies+constraint"])
     case["cls"] = cls
+    if rng.random() < 0.3:
+        case["time_limit"] = rng.choice(["inf", 30, 60.0])
     if "copies" in cls:
         if rng.random() < 0.5:
             case["copies"] = rng.choice([0, 1, 2])
